@@ -89,7 +89,7 @@ Lemma ok_eth_consensus : regen_ok client_store_families iterprefix_eth_IterateCo
 Proof. vm_compute. reflexivity. Qed.
 Lemma ok_tm_iteration : regen_ok client_store_families iterprefix_tm_IterateConsensusStateAscending [[3%nat]] = true.
 Proof. vm_compute. reflexivity. Qed.
-Lemma ok_tm_export : regen_ok client_store_families iterprefix_tm_ClientState_ExportMetadata [[3%nat]] = true.
+Lemma ok_tm_export : regen_ok client_store_families tm_export_own [[3%nat]] = true.
 Proof. vm_compute. reflexivity. Qed.
 Lemma ok_bsc_signers : regen_ok client_store_families iterprefix_bsc_GetRecentSigners [[4%nat]] = true.
 Proof. vm_compute. reflexivity. Qed.
@@ -505,7 +505,7 @@ Proof.
   - apply NoDup_keys_with_prefixes; [vm_compute; reflexivity | exact N].
   - intros k H1 H2. apply filter_In in H1 as [H1 _].
     apply in_keys_with_prefixes in H1 as [_ (p & Hp & P1)]. apply in_keys_with_prefixes in H2 as [_ (q & Hq & P2)].
-    assert (AP : apart_lists (prefixes_of iterprefix_tm_IterateProcessedTime) (prefixes_of iterprefix_tm_ClientState_ExportMetadata) = true)
+    assert (AP : apart_lists (prefixes_of iterprefix_tm_IterateProcessedTime) (prefixes_of tm_export_own) = true)
       by (vm_compute; reflexivity).
     unfold apart_lists in AP. rewrite forallb_forall in AP. specialize (AP p Hp). rewrite forallb_forall in AP.
     exact (prefixes_disjoint p q k (AP q Hq) P1 P2).
